@@ -138,6 +138,8 @@ def planted_must(spec):
         c, mx, rms = geom.classify_tuple(P, X, spec["atol"], K)
         if c == "MUST":
             out.append(p)
+        elif c == "GRAY" and mx <= 0.8 * spec["atol"] and geom.robust_must(P, X, spec["atol"]):
+            out.append(dict(p, robust=True))
     return out
 
 
@@ -198,6 +200,8 @@ def oracle_c02(ctx, spec, result, label="", refgroups="compute"):
         seen.add(g)
     for p in planted_must(spec):
         ctx.count("planted_must_copies")
+        if p.get("robust"):
+            ctx.count("planted_must_by_all_anchor_certificate")
         ctx.count("planted_boundary_class_%d" % p["boundary"])
         ctx.count("planted_pose_%s" % p["pose"])
         if frozenset(p["indices"]) not in seen:
